@@ -230,7 +230,7 @@ var plans = map[string]*Plan{
 			return "crash:" + crashClass(c), "the process running the rpc client/server died (" + c + ")"
 		},
 	},
-	"C07": clusterPlan("C07", 4, 3, 16, 8, map[string]int64{"rebuild_cycles": 4, "promotions_checked": 4, "stored_images_compared": 8, "writes_acknowledged": 1000},
+	"C07": clusterPlan("C07", 6, 2, 16, 9, map[string]int64{"rebuild_cycles": 4, "promotions_checked": 4, "stored_images_compared": 8, "writes_acknowledged": 1000},
 		"clusters of real processes (in-process controller with the real remote factory and REST server; jiva replica + jiva sync-agent processes on their own loopback addresses; RF 2-3, volumes of 4-12 MiB) run kill/stop -> detach -> restart -> rebuild cycles under 1-3 foreground writers at three intensities, with pre-failure histories incl. user snapshots; a third of the rebuilds are interrupted (SIGKILL of the rebuilding replica at the Addreplica / syncFiles / reloadAndVerify log markers, with or without its sync agent) and some lose their source; " +
 			"when the replica is first listed RW the writers are paused and (a) the whole volume is read once per reader position through the controller (so the promoted replica serves every chunk through its live block map), (b) extent-exact copies of the promoted and the source directory yield live image and every user snapshot (revert-on-copy): pairwise byte-identical and equal to the model, revision counters and chains equal; the sampled mode timeline must never show two WO replicas nor a restarted replica listed RW before WO; non-trivial = a cycle with acknowledged foreground writes; distinct = configuration + event count"),
 	"C19": clusterPlan("C19", 5, 1, 15, 4, map[string]int64{"clones_completed": 2, "clone_images_compared": 2, "clone_status_samples": 50, "failed_clones_observed": 1},
